@@ -294,6 +294,9 @@ func checkC09(run *mon.Run, rng *mon.Rand, thorough bool) {
 		e.L2.BK.SetDenomMetaData(e.L2.Ctx, banktypes.Metadata{Base: "unative", Display: "native", Name: "native gas token", Symbol: "NATIVE",
 			DenomUnits: []*banktypes.DenomUnit{{Denom: "unative", Exponent: 0}, {Denom: "native", Exponent: 6}}})
 		e.L2.Speculate = r.Bool()
+		if r.Bool() {
+			e.EnableShadow(r.U64())
+		}
 		for s := 0; s < steps && !run.TooMany(); s++ {
 			switch x := r.Intn(100); {
 			case x < 35:
